@@ -46,6 +46,11 @@ TRUSTED_BASE = [
     "are parameters of the model (objects appear as parsed headers + opaque value ids; C01/C03 cover them)",
     "Lean twin of the writer (Spec/XrefWrite.lean): the harness checks Python writer bytes = Lean writer bytes for "
     "every table text and xref-stream payload, so the round-trip theorems speak about the bytes pdfminer read",
+    "structural Lean file writer (Spec/XrefHist.lean: positions from gaps and lengths, entry list per (sub-)revision, "
+    "history, trailer chain, tail): Rep / chain / SecLists are DERIVED for its outputs (C02_written_rep, C02_chain, "
+    "C02_table_lists, C02_stream_lists, C02_end_to_end); per file the harness checks that the Python writer's file has "
+    "exactly this structure (q.written, q.chain, q.tablelists, q.streamlists, q.tail); the step plan -> bytes of object "
+    "bodies and trailer dictionaries stays with the Python writer",
     "zlib for Flate on xref/object streams",
 ]
 ASSUMPTIONS = [
